@@ -17,5 +17,8 @@ theorem control_DBStateInArchiveRecovery : Src.control.DBStateInArchiveRecovery 
 theorem control_DBStateInProduction : Src.control.DBStateInProduction = 6 := by decide
 theorem relmap_RelMapMagic : Src.relmap.RelMapMagic = 0x592717 := by decide
 theorem relmap_RelMapMaxMappings : Src.relmap.RelMapMaxMappings = 62 := by decide
+/-- fixes/control/09: the PostgreSQL 16 layout constants (`Spec.relmapMax16`, `Spec.RelMapLayout.v16.size`) -/
+theorem relmap_RelMapMaxMappingsV16 : Src.relmap.RelMapMaxMappingsV16 = 64 := by decide
+theorem relmap_RelMapFileSizeV16 : Src.relmap.RelMapFileSizeV16 = 524 := by decide
 theorem sequence_SequenceMagic : Src.sequence.SequenceMagic = 0x1717 := by decide
 end PgVerif.Proofs.SrcTie.Control
